@@ -8,26 +8,40 @@ git -C /repo worktree add -q --detach "$wt" HEAD || exit 2
 trap 'git -C /repo worktree remove --force "$wt" >/dev/null 2>&1; rm -rf "$wt"' EXIT
 cd "$wt"
 demo=$(ls "$src"/demo*.py | head -1)
-timeout 600 /venv/bin/python "$demo" >/var/tmp/sv_clean.$$ 2>&1; rc0=$?
+timeout 600 env PYTHONPATH="$wt" /venv/bin/python "$demo" >/var/tmp/sv_clean.$$ 2>&1; rc0=$?
 git apply "$src/patch.diff" || { echo "RESULT patch-does-not-apply"; exit 3; }
 /venv/bin/python -c "import openpectus,sys; sys.exit(0 if openpectus.__file__.startswith('$wt') else 1)" || { echo "RESULT wrong-import"; exit 3; }
-timeout 600 /venv/bin/python "$demo" >/var/tmp/sv_mut.$$ 2>&1; rc1=$?
+timeout 600 env PYTHONPATH="$wt" /venv/bin/python "$demo" >/var/tmp/sv_mut.$$ 2>&1; rc1=$?
 echo "demo clean rc=$rc0 mutated rc=$rc1"
 tail -5 /var/tmp/sv_mut.$$; rm -f /var/tmp/sv_clean.$$ /var/tmp/sv_mut.$$
 [ $rc0 -eq 0 ] && [ $rc1 -ne 0 ] || { echo "RESULT demo-does-not-discriminate"; exit 4; }
 if [ "$mode" = tests ]; then
   out=$(mktemp /var/tmp/sv.XXXXXX.xml)
   env -u OPEN_PECTUS_VERIF /venv/bin/python -m pytest -q -p no:cacheprovider --timeout=900 --continue-on-collection-errors --junitxml="$out" >/dev/null 2>&1
-  /venv/bin/python - "$out" <<'PY'
-import json,sys,xml.etree.ElementTree as ET
+  /venv/bin/python - "$out" "$wt" <<'PY'
+import json,sys,subprocess,os,xml.etree.ElementTree as ET
 b=json.load(open('/root/.vp/BASELINE.json'))
+wt=sys.argv[2]
 passed=set()
 for tc in ET.parse(sys.argv[1]).getroot().iter('testcase'):
     if not any(c.tag in ('failure','error','skipped') for c in tc): passed.add('%s::%s'%(tc.get('classname'),tc.get('name')))
 missing=[t for t in b['stable_pass'] if t not in passed]
 print('suite: stable_pass=%d passed_now=%d missing=%d'%(len(b['stable_pass']),len(passed),len(missing)))
-for m in missing: print('  NOT PASSING:',m)
-print('RESULT', 'ok' if not missing else 'tests-fail')
+def nodeid(t):
+    cls,name=t.split('::'); parts=cls.split('.'); return '/'.join(parts[:-1])+'.py::'+parts[-1]+'::'+name
+def run(t,cwd):
+    env=dict(os.environ); env.pop('OPEN_PECTUS_VERIF',None)
+    return subprocess.run(['/venv/bin/python','-m','pytest','-q','-p','no:cacheprovider','--timeout=900',nodeid(t)],cwd=cwd,env=env,stdout=subprocess.DEVNULL,stderr=subprocess.DEVNULL).returncode==0
+still=[]
+for m in missing:
+    ok=any(run(m,wt) for _ in range(3))
+    head_ok=None
+    if not ok:
+        head_ok=any(run(m,'/repo') for _ in range(3))   # /repo is only read here
+        still.append((m,head_ok))
+    print('  NOT PASSING in suite run:',m,'-> alone with patch:', 'passes' if ok else 'FAILS 3/3', '' if ok else '(unchanged tree alone: %s)'%('passes' if head_ok else 'fails too'))
+real=[m for m,h in still if h]
+print('RESULT', 'ok' if not real else 'tests-fail', '' if not still else 'flaky-under-load=%d'%len([1 for m,h in still if not h]))
 PY
   rm -f "$out"
 else
